@@ -213,21 +213,25 @@ func (e *Engine) verifyFunc(key string, interf bool) {
 				if fc.orphanLoops == nil {
 					fc.orphanLoops = map[int]*LoopSpec{}
 					fc.adoptedBy = map[*ssa.BasicBlock]*LoopSpec{}
+					fc.adoptedN = map[int]*ssa.BasicBlock{}
 				}
 				fc.orphanLoops[n] = fs.Loops[n]
 			}
 		}
 	}
 	fc.execBlock(st, fr, fn.Blocks[0], nil)
+	// a hint whose target call is neither in the body nor in a helper executed in place is an error
+	if fs != nil {
+		for key, hs := range fs.OrphanHints {
+			if !fc.usedOrphanHints[key] {
+				fc.contractError(st, hs[0], fmt.Sprintf("hint target call %s does not exist in %s", strings.TrimPrefix(key, "-"), key0(fc.key)))
+			}
+		}
+	}
 	// a loop clause that names no loop of the body is an error unless the loop was found, without a clause of its
 	// own, in a contract-less callee executed in place (the loop was extracted into a helper function)
 	for n := range fc.orphanLoops {
-		adopted := false
-		for _, ls := range fc.adoptedBy {
-			if ls.N == n {
-				adopted = true
-			}
-		}
+		_, adopted := fc.adoptedN[n]
 		if !adopted {
 			fc.contractError(st, &Clause{Text: fmt.Sprintf("loop %d", n), File: fs.File, Line: fs.Line}, fmt.Sprintf("contract mentions loop %d but the function has %d loops", n, len(fr.loops)))
 		}
@@ -268,6 +272,8 @@ func (fc *fnCtx) specCtxForClause(st *State, fr *frame, c effClause) *specCtx {
 	}
 	return sc
 }
+
+func key0(k string) string { return k }
 
 // mentionsGuarded: does the clause text name a field that is declared guarded_by a mutex?
 func mentionsGuarded(ts *TypeSpec, text string) bool {
